@@ -993,17 +993,37 @@ def msg_to_plain(msg):
             out[f.name] = msg_to_plain(v) if msg.HasField(f.name) else None
         else:
             out[f.name] = bytes(v) if isinstance(v, (bytes, bytearray)) else v
+    if desc.name == "AuxData":
+        out["data"] = canon_aux_data(out["type_name"], out["data"])
     if desc.name == "IR" and out.get("cfg", 0) is None:
         # an absent CFG message and an empty one carry the same content
         out["cfg"] = {"vertices": [], "edges": []}
     return out
 
 
+def _unordered(t):
+    return t[0] in ("set", "mapping") or any(_unordered(x) for x in t[1])
+
+
+def canon_aux_data(type_name, data):
+    """AuxData bytes as compared between two messages: the bytes themselves,
+    except for types with a set or mapping inside (whose element order is
+    free): those are compared as decoded values plus the byte count."""
+    try:
+        t = R.parse(type_name)
+        if not _unordered(t):
+            return data
+        v = R.decode(bytes(data), t)
+        return ("unordered-container-value", R.freeze(v), len(data))
+    except Exception:  # noqa  (unknown codec, malformed: compare raw)
+        return data
+
+
 def aux_plain(aux):
     out = {}
     for name, (t, v) in aux.items():
         data = v if isinstance(v, bytes) else R.encode(v, R.parse(t))
-        out[name] = {"type_name": t, "data": data}
+        out[name] = {"type_name": t, "data": canon_aux_data(t, data)}
     return out
 
 
